@@ -10,6 +10,7 @@ import (
 	"os"
 	"sort"
 	"strings"
+	"verifharness/internal/evid"
 
 	"perkeep.org/pkg/blob"
 	"perkeep.org/pkg/blobserver"
@@ -215,7 +216,16 @@ func (r *run) checkZips() error {
 				r.partStart[whole] = int64(starts[z.PartIndex][0])
 			}
 			if !found {
-				return fmt.Errorf("zip %v (part %d of %v): first entry (%d bytes) is not the file content at any of the offsets %v where part %d can start", z.Ref, z.PartIndex, whole, z.DataLen, cands, z.PartIndex)
+				// The chains of start offsets are the harness's inference from the zips it can see; after an
+				// interrupted pack followed by a differently split re-pack, a zip's predecessor may be a zip
+				// that was never stored. What the property itself demands is that the first entry is a
+				// contiguous slice of the file: fall back to that.
+				idx := bytes.Index(content, z.data)
+				if idx < 0 {
+					return fmt.Errorf("zip %v (part %d of %v): first entry (%d bytes) is not a contiguous slice of the file (and not at any of the offsets %v where part %d could start)", z.Ref, z.PartIndex, whole, z.DataLen, cands, z.PartIndex)
+				}
+				evid.R.Label("zip/placed-by-containment-only")
+				starts[z.PartIndex+1] = append(starts[z.PartIndex+1], idx+z.DataLen)
 			}
 		}
 	}
